@@ -240,10 +240,17 @@ namespace sim
     }
     inline void install_crash_handlers()
     {
+        // an alternate signal stack: a stack overflow (runaway recursion in the code under test) must still be reported, not die silently
+        static char altstack[1 << 16];
+        stack_t ss;
+        memset(&ss, 0, sizeof ss);
+        ss.ss_sp = altstack;
+        ss.ss_size = sizeof altstack;
+        sigaltstack(&ss, nullptr);
         struct sigaction sa;
         memset(&sa, 0, sizeof sa);
         sa.sa_handler = crash_handler;
-        sa.sa_flags = SA_NODEFER; // the handler may leave through siglongjmp during shrinking
+        sa.sa_flags = SA_NODEFER | SA_ONSTACK; // the handler may leave through siglongjmp during shrinking
         sigemptyset(&sa.sa_mask);
         for (int s : { SIGSEGV, SIGBUS, SIGILL, SIGFPE, SIGABRT })
             sigaction(s, &sa, nullptr);
